@@ -403,7 +403,11 @@ func (s *Stream) fillDataToReadBuffer(buf bufferSliceWrapper) error {
 			gopool.Go(func() {
 				for {
 					s.pendingData.moveTo(s.recvBuf)
-					for s.IsOpen() && s.recvBuf.Len() > 0 {
+					// data flushed by the peer before it closed is still offered (the stream is
+					// half-closed then); only a local Close stops the callbacks
+					for s.getStreamState() != uint32(streamClosed) &&
+						atomic.LoadUint32(&s.callbackCloseState) != uint32(callbackWaitExit) &&
+						s.recvBuf.Len() > 0 {
 						callback.OnData(s.recvBuf)
 						s.pendingData.moveTo(s.recvBuf)
 					}
